@@ -287,14 +287,29 @@ def serverUp (S : ServerParams) : List ConnEv → Bool
 network) and nothing else (no look at the file system) -/
 structure ReattachParams where
   probeConnects : Bool
+  /-- `CmdAttachedRunner.Wait` waits by POLLING the pid (`pidWait`), which works for any process — not with
+  `os.Process.Wait`, which fails at once for a process that is not the caller's child -/
+  waitPolls : Bool
+  /-- the polling interval of `pidWait` in ms: a ticker with a constant period (0 = not of that shape) -/
+  pollMs : Nat
   deriving DecidableEq, Repr
 
-def ReattachParams.Good (R : ReattachParams) : Prop := R.probeConnects = true
+def ReattachParams.Good (R : ReattachParams) : Prop :=
+  R.probeConnects = true ∧ R.waitPolls = true ∧ 0 < R.pollMs ∧ R.pollMs ≤ 1000
 instance (R : ReattachParams) : Decidable R.Good := by unfold ReattachParams.Good; exact inferInstance
 
 /-- does reattaching fail with the process-not-found error when NOTHING listens on the address?  `socketFileLeft`: the
 target crashed, so its Unix socket file was never removed.  A probe that connects gets "connection refused" either way;
 a probe that looks at the file is fooled by the left-over file. -/
 def reattachNotFound (R : ReattachParams) (socketFileLeft : Bool) : Bool := R.probeConnects || !socketFileLeft
+
+/-- does the exit watcher of a reattached client wait for the plugin itself?  (`isChild`: the plugin happens to be a child of
+this host — in the tests; never in production, where another process launched it) -/
+def reattachWaitFaithful (R : ReattachParams) (isChild : Bool) : Bool := R.waitPolls || isChild
+
+/-- bound (ms) on the time between the plugin's death and the exit watcher noticing it, for a plugin that had been up for
+`ageMs`: a constant polling period, or (the nearest other shape) an interval that keeps doubling and is by then as long
+as the plugin has lived -/
+def reattachExitNoticedWithin (R : ReattachParams) (ageMs : Nat) : Nat := if 0 < R.pollMs then R.pollMs else ageMs
 
 end GoPlugin.Lifecycle
